@@ -72,6 +72,10 @@ class BasePose(np.ndarray):
             Whether the two poses are equal
 
         """
+        # Poses of different types are never equal (and their arrays may not even have the same length)
+        if not type(self) is type(other):  # noqa
+            return False
+
         return np.linalg.norm(self.to_array() - other.to_array()) / max(np.linalg.norm(self.to_array()), tol) < tol
 
     # ======================================================================= #
